@@ -7,17 +7,65 @@ COMMON_ASSUME = [
     "only sampled programs, schedules and fault positions are covered",
 ]
 
-PLANS = {
-    "C01": {
+
+GEN_RULE = ("programs drawn by the seeded generator profiles listed under coverage.profiles (1-4 clients x 2-10 ops over the full "
+            "handle API: send/call/ping/try_force_send through Addr, OwningAddr, Sender, Caller, WeakSender, WeakCaller; "
+            "stop/halt/consume/restart/drop/clone/downgrade/upgrade/convert/detach/await/join; forks; cancelled ops; handler scripts with "
+            "yields, virtual sleeps, timers, ctx.stop/restart), each executed once on the seeded vexec under one of 6 schedule policies; "
+            "distinct = distinct hash of the full event trace incl. virtual times; ")
+
+
+def plan(profiles_quick, profiles_thorough, rule_nontrivial, required, extra=None):
+    d = {
         "engines": ["l1"],
-        "quick": {"l1": [("mailbox", 6000)]},
-        "thorough": {"l1": [("mailbox", 1500000)]},
-        "rule": "programs: 1-4 clients x 2-8 ops (send/call/ping/try_force_send through Addr, OwningAddr, Sender, Caller, "
-                "WeakSender, WeakCaller; conversions, forks, cancels) on one actor with mailbox in {unbounded, bounded(0..3)}, "
-                "executed on the seeded vexec under 6 schedule policies; distinct = distinct hash of the full event trace incl. virtual times; "
-                "non-trivial = >=2 clients submitted and both the waiting and the forcing path were used",
-        "required_premises": ["C01.R1", "C01.R2", "C01.R3.cross_client.wait_force", "C01.R3.cross_client.force_wait",
-                              "C01.R3.same_client.wait_force", "C01.R3.same_client.force_wait", "C01.R4.fold", "C01.R4.reply", "C01.R4.join"],
+        "quick": {"l1": profiles_quick},
+        "thorough": {"l1": profiles_thorough},
+        "rule": GEN_RULE + "non-trivial = " + rule_nontrivial,
+        "required_premises": required,
         "assumptions": COMMON_ASSUME,
-    },
+    }
+    if extra:
+        d.update(extra)
+    return d
+
+
+def scale(profiles, k):
+    return [(n, c * k) for n, c in profiles]
+
+
+Q01 = [("mailbox", 30000), ("backpressure", 8000), ("lifecycle", 8000), ("owning", 4000)]
+Q02 = [("mailbox", 16000), ("lifecycle", 16000), ("owning", 8000), ("backpressure", 4000)]
+Q03 = [("lifecycle", 24000), ("owning", 8000), ("handles", 6000), ("mailbox", 4000)]
+Q04 = [("lifecycle", 30000), ("owning", 12000), ("mailbox", 6000), ("backpressure", 4000)]
+Q05 = [("handles", 24000), ("lifecycle", 12000), ("owning", 6000), ("mailbox", 4000)]
+Q12 = [("backpressure", 30000), ("mailbox", 10000), ("lifecycle", 4000)]
+Q17 = [("owning", 30000), ("lifecycle", 10000), ("mailbox", 4000)]
+
+PLANS = {
+    "C01": plan(Q01, scale(Q01, 40),
+                ">=2 clients submitted and both the waiting and the forcing path were used",
+                ["C01.R1", "C01.R2", "C01.R3.cross_client.wait_force", "C01.R3.cross_client.force_wait",
+                 "C01.R3.same_client.wait_force", "C01.R3.same_client.force_wait", "C01.R4.fold", "C01.R4.reply", "C01.R4.join"]),
+    "C02": plan(Q02, scale(Q02, 40),
+                ">=2 clients issued calls through >=2 handle kinds",
+                ["C02.R1", "C02.R2", "C02.R3", "C02.R4.resolved", "C02.R5.after_end", "C02.R5.await_after_end", "C02.R5.pending_across_end"]),
+    "C03": plan(Q03, scale(Q03, 40),
+                "an actor had >=1 restart, or terminated gracefully after a stop/drop/stream-end with >=1 message handled",
+                ["C03.R1.started_first", "C03.R2.nothing_after_stopped", "C03.R3.graceful_end", "C03.R3.finished_on_stream_actor",
+                 "C03.R4.restart_closes_incarnation"]),
+    "C04": plan(Q04, scale(Q04, 40),
+                "a submission was concurrent with, or begun after, a stop request",
+                ["C04.R1.send_before_stop_handled", "C04.R1.call_before_stop_ok", "C04.R2.after_stop_unhandled", "C04.R3.stop_terminates",
+                 "C04.R4.await_after_stopped", "C04.R4.join_after_stopped", "C04.R5.await_result"]),
+    "C05": plan(Q05, scale(Q05, 40),
+                "the last strong handle of an actor was dropped while it was running, or a weak handle was upgraded after that",
+                ["C05.R1.no_termination_while_held", "C05.R2.last_drop_terminates", "C05.R2.with_live_timers", "C05.R2.accepted_then_handled",
+                 "C05.R2.exact_time", "C05.R2.quiescent_invariant", "C05.R3.upgrade_after_last_drop", "C05.R3.monotone"]),
+    "C12": plan(Q12, scale(Q12, 40),
+                "a send on a bounded mailbox returned Pending at least once (backpressure was exerted)",
+                ["C12.R1.send_returned", "C12.R2.send_resolves", "C12.R3.unbounded_never_waits", "C12.R4.stop_while_full"]),
+    "C17": plan(Q17, scale(Q17, 40),
+                "a join/consume yielded the actor, or an OwningAddr was detached",
+                ["C17.R1.join_after_stopped", "C17.R1.first_join_result", "C17.R2.final_state", "C17.R3.at_most_once", "C17.R4.join_resolves",
+                 "C17.R6.detach_keeps_running"]),
 }
